@@ -414,3 +414,57 @@ def formula_boundary_points_g1():
                     break
     _FB.update({"double": dbl, "mixed": mixed})
     return _FB
+
+
+_OB = {}
+
+
+def output_boundary_cases_g1():
+    """Jacobian representatives chosen by the OUTPUT of the formula: for ordinary subgroup points P, Q the representative (x z^2, y z^3, z)
+    of P is picked so that the X coordinate the addition (resp. doubling) formulas of the library produce - X3 = x3 * Z3^2 with
+    Z3 = 2 z (x2 - x1) z^2 for P + Q (Q normalised) and Z3 = 2 y z^4 for 2P - has a stored residue at a boundary: just below / above q
+    (q-1, q-2, q-3, 0 is impossible, 1, 2) and just below the multiples k q / 2, k q / 4 that the subtraction chain r^2 - J - 2V passes.
+    Returns {"add": [(label, P, z, Q)], "double": [(label, P, z)]}; a library with other (equivalent) formulas simply sees ordinary inputs."""
+    if _OB:
+        return _OB
+    Rinv = pow(2**384, -1, q)
+    targets = [q - 1, q - 2, q - 3, 1, 2, q // 2, q // 2 + 1, q // 4, 3 * q // 4, 2**383 % q, (2**384 - 1) % q]
+    adds, dbls = [], []
+    pts = [ref.pt_mul(ref.G1_GEN, k, 1) for k in range(3, 60)]
+    for T in targets:
+        X3 = T * Rinv % q
+        found = 0
+        for i in range(len(pts) - 1):
+            P, Q = pts[i], pts[i + 1]
+            S = ref.pt_add(P, Q, 1)
+            Z3 = _sqrt_fq(X3 * pow(S[0], -1, q))
+            if Z3 is None:
+                continue
+            for Zc in (Z3, q - Z3):
+                zs = cube_roots_fq(Zc * pow(2 * (Q[0] - P[0]), -1, q))
+                if zs:
+                    adds.append(("X3 residue of P+Q = %x" % T, P, zs[0], Q))
+                    found += 1
+                    break
+            if found:
+                break
+        for P in pts:
+            D = ref.pt_add(P, P, 1)
+            Z3 = _sqrt_fq(X3 * pow(D[0], -1, q))
+            if Z3 is None:
+                continue
+            ok = False
+            for Zc in (Z3, q - Z3):
+                w = Zc * pow(2 * P[1], -1, q) % q
+                s2 = _sqrt_fq(w)
+                if s2 is None:
+                    continue
+                z = _sqrt_fq(s2) or _sqrt_fq(q - s2)
+                if z is not None and pow(z, 4, q) == w:
+                    dbls.append(("X3 residue of 2P = %x" % T, P, z))
+                    ok = True
+                    break
+            if ok:
+                break
+    _OB.update({"add": adds, "double": dbls})
+    return _OB
